@@ -61,24 +61,33 @@ Schema(c) ==
     ("P" :> DStruct("nsa", "", <<Fld("p1", I32b)>>, <<Sub("q", "Q"), Sub("r", "R")>>, c.pc)) @@
     ("Q" :> DStruct("nsa", "P", <<Fld("q1", X)>>, <<>>, FALSE)) @@
     ("R" :> DStruct("nsa", "P", <<Fld("r1", TNull(TRef("L")))>>, <<>>, FALSE)) @@
+    \* M: parent in another namespace, required fields only inherited
+    ("M" :> DStruct("nsa", "L", <<Fld("m1", TNull(TBool))>>, <<>>, FALSE)) @@
+    ("H" :> DStruct("nsa", "", <<Fld("h1", TRef("M")), Fld("h2", TNull(TRef("Q"))),
+                                 Fld("h3", TNull(TList(TRef("M"), Unset, 1))),
+                                 FldD("h4", TRef("K"), VUnion("K", "green", VNone))>>, <<>>, FALSE)) @@
     ("U" :> DUnion("nsa", "", c.uc,
                    <<Tag("tv", TVoid), Tag("tn", TNull(TRef("S"))), Tag("tp", X),
                      Tag("ts", TRef("C")), Tag("tu", TRef("K")), Tag("tt", TRef("P")),
                      Tag("te", TNull(TRef("E"))), Tag("tl", TList(TRef("K"), Unset, Unset)),
-                     Tag("tq", TNull(I32b))>>)) @@
+                     Tag("tq", TNull(I32b)),
+                     \* every remaining member kind x nullable
+                     Tag("tql", TRef("Q")), Tag("tr", TNull(TRef("R"))), Tag("tto", TNull(TRef("P"))),
+                     Tag("tuo", TNull(TRef("K"))), Tag("tm", TMap(I32b)),
+                     Tag("tlo", TNull(TList(I32b, 1, 2))), Tag("ta", TRef("A")), Tag("th", TRef("H"))>>)) @@
     ("V" :> DUnion("nsa", "U", c.uc, <<Tag("tw", TNull(TRef("A"))), Tag("tx", TVoid)>>))
 
-UserRoots == {"A", "K", "L", "E", "S", "C", "P", "U", "V"}
+UserRoots == {"A", "K", "L", "E", "S", "C", "P", "U", "V", "H", "M", "Q"}
 Roots == {TRef(n) : n \in UserRoots}
          \cup {TList(TRef(n), 1, 2) : n \in {"S", "U", "P"}}
          \cup {TMap(TRef(n)) : n \in {"C", "V"}}
          \cup {TNull(TRef(n)) : n \in {"S", "U"}}
-TagPool == {"tv", "tn", "tp", "ts", "red", "q", "r", "other", "zz", "tw"}
+TagPool == {"tv", "tn", "tp", "ts", "red", "q", "r", "other", "zz", "tw", "tql"}
 
 CfgIndex(c) == (c.x - 1) * 4 + (IF c.uc THEN 2 ELSE 0) + (IF c.pc THEN 1 ELSE 0)
 \* the types A, K, L, E do not depend on the configuration: explored once
 RootsFor(c) == IF CfgIndex(c) = 0 THEN Roots
-               ELSE Roots \ {TRef("A"), TRef("K"), TRef("L"), TRef("E")}
+               ELSE Roots \ {TRef("A"), TRef("K"), TRef("L"), TRef("E"), TRef("M")}
 
 \* ------------------------------------------------------------ the machine
 None == [k |-> "none"]
